@@ -231,6 +231,25 @@ fn is_known(known: &[KnownFinding], prop: &str, sig: &str) -> Option<KnownFindin
         .cloned()
 }
 
+/// A panic while a case is evaluated (in library code called in-process, or in the harness itself) must not take the
+/// whole run down silently: it becomes a failure of that case, with the panic message as signature.
+pub fn guarded<F: FnOnce() -> CaseResult>(f: F) -> CaseResult {
+    match std::panic::catch_unwind(std::panic::AssertUnwindSafe(f)) {
+        Ok(r) => r,
+        Err(e) => {
+            let msg = if let Some(s) = e.downcast_ref::<&str>() {
+                s.to_string()
+            } else if let Some(s) = e.downcast_ref::<String>() {
+                s.clone()
+            } else {
+                "panic".to_string()
+            };
+            let short: String = msg.chars().filter(|c| !c.is_ascii_digit()).take(60).collect();
+            Err(Fail::new(format!("panic-while-evaluating:{short}"), format!("code called in-process panicked: {msg}"), serde_json::json!({"panic": msg})))
+        }
+    }
+}
+
 pub fn run_property(prop: &Property, cfg: &RunCfg, fuzz: &[FuzzSpec]) -> i32 {
     let t0 = Instant::now();
     let known = load_known_findings();
@@ -258,9 +277,9 @@ pub fn run_property(prop: &Property, cfg: &RunCfg, fuzz: &[FuzzSpec]) -> i32 {
                 PhaseKind::Gen { f, .. } => {
                     let tape = expand_tape(&v["tape"]);
                     let mut t = Tape::new(&tape);
-                    f(&mut t, &w)
+                    guarded(|| f(&mut t, &w))
                 }
-                PhaseKind::Enum { f, .. } => f(v["index"].as_u64().unwrap_or(0), &w),
+                PhaseKind::Enum { f, .. } => guarded(|| f(v["index"].as_u64().unwrap_or(0), &w)),
             };
             replayed += 1;
             match r {
@@ -352,7 +371,7 @@ pub fn run_property(prop: &Property, cfg: &RunCfg, fuzz: &[FuzzSpec]) -> i32 {
                                 if i >= total {
                                     break;
                                 }
-                                match f(i, &w) {
+                                match guarded(|| f(i, &w)) {
                                     Ok(co) => record(acc, co),
                                     Err(fail) => {
                                         if let Some(k) = is_known(known, prop_id, &fail.signature) {
@@ -598,7 +617,7 @@ fn run_gen_thread(
     let n_seen = AtomicU64::new(0);
     let res = runner.run(&strat, |tape_vec| {
         let mut tape = Tape::new(&tape_vec);
-        let r = f(&mut tape, &w);
+        let r = guarded(|| f(&mut tape, &w));
         let n = n_seen.fetch_add(1, Ordering::Relaxed);
         if n % 32 == 0 {
             w.cleanup();
@@ -638,7 +657,7 @@ fn run_gen_thread(
                     let mut got = None;
                     for _ in 0..10 {
                         let mut tape = Tape::new(&minimal);
-                        if let Err(fl) = f(&mut tape, &w) {
+                        if let Err(fl) = guarded(|| f(&mut tape, &w)) {
                             got = Some(fl);
                             break;
                         }
@@ -817,7 +836,7 @@ fn shrink_tape(
     let mut still_fails = |cand: &[u16], evals: &mut usize| -> bool {
         *evals += 1;
         let mut t = Tape::new(cand);
-        let r = f(&mut t, w);
+        let r = guarded(|| f(&mut t, w));
         if *evals % 16 == 0 {
             w.cleanup();
         }
@@ -941,9 +960,9 @@ pub fn replay_property(prop: &Property, cfg: &RunCfg, file: &Path) -> i32 {
         PhaseKind::Gen { f, .. } => {
             let tape: Vec<u16> = expand_tape(&v["tape"]);
             let mut t = Tape::new(&tape);
-            f(&mut t, &w)
+            guarded(|| f(&mut t, &w))
         }
-        PhaseKind::Enum { f, .. } => f(v["index"].as_u64().unwrap_or(0), &w),
+        PhaseKind::Enum { f, .. } => guarded(|| f(v["index"].as_u64().unwrap_or(0), &w)),
     };
     let _ = std::fs::remove_dir_all(&cfg.scratch_root);
     match r {
